@@ -21,6 +21,7 @@
   line of 1 MiB or more).
 -/
 import ClairModel.Proofs.JsonBlob
+import ClairModel.Gen.OfflineImport
 
 namespace ClairModel.Props.C16
 open ClairModel ClairModel.JsonBlob
@@ -235,7 +236,33 @@ example :
   simp [NoReuse, step, Store.record, Store.store, pickRef, mkUuid, Store.hasRef, arrange, storeOut,
     emitRecs, Rec.fits, maxLine, mkLine, World.init]
 
-/-! ### OfflineImport's loop (modelled; not tied to the code — it needs Postgres) -/
+/-! ### OfflineImport's loop
+
+  `libvuln.OfflineImport` needs a Postgres pool, so the harness cannot drive it.
+  Its loop is tied to the model (`importEntry`, `importAll`) by facts the
+  extractor regenerates from libvuln/updates.go on every run
+  (`Gen/OfflineImport.lean`, by role, independent of variable names). -/
+
+/-- The loop the model describes is the loop in the source:
+    * the known operations are those of kind VulnerabilityKind, looked up by the
+      entry's `Updater` (`known e.updater`);
+    * an entry is skipped — `continue` of the outer loop — exactly on
+      `op.Fingerprint == e.Fingerprint` (`(known e.updater).contains e.fp`);
+    * then `UpdateEnrichments(ctx, e.Updater, e.Fingerprint, e.Enrichment)` if
+      `e.Enrichment != nil`, then `UpdateVulnerabilities(ctx, e.Updater,
+      e.Fingerprint, e.Vuln)` if `e.Vuln != nil`, in this order, no `else`;
+    * `l.Err()` is consulted after the loop; nothing else is in the loop body. -/
+theorem import_loop_shape_as_modelled :
+    Gen.OfflineImport.opsKind = "VulnerabilityKind" ∧
+    Gen.OfflineImport.rangeKey = "Updater" ∧
+    Gen.OfflineImport.skipCompare = ("Fingerprint", "Fingerprint") ∧
+    Gen.OfflineImport.skipContinuesLoop = true ∧
+    Gen.OfflineImport.guardedCalls =
+      [("Enrichment", "UpdateEnrichments", ["Updater", "Fingerprint", "Enrichment"]),
+       ("Vuln", "UpdateVulnerabilities", ["Updater", "Fingerprint", "Vuln"])] ∧
+    Gen.OfflineImport.errCheckedAfterLoop = true ∧
+    Gen.OfflineImport.unrecognisedStatements = 0 := by
+  decide
 
 /-- An entry whose fingerprint is among the known operations of its updater
     causes no store call. -/
